@@ -6,7 +6,8 @@ Defuzzifier that returns prepared values) and on the Coq model Model/Cascade.v (
 (as a list), previous_value, the fuzzy output's degrees and the exception class are compared after EVERY event.
 
 Direct oracle: the documented row-wise cascade written independently below (oracle_rows), previous value = last
-value before the call, atomicity of failures, disabled untouched, clear resets.
+value before the call, atomicity of failures, disabled untouched, clear resets; and split invariance stated
+directly (all cuts of the same sequence under the same setting give the same concatenated values).
 
 Kinds of the defuzzified value: 1-d ndarray always; a one-element batch also as 0-d ndarray and as numpy.float64
 (what WeightedAverage/WeightedSum return for float inputs).  The documented behaviour does not depend on the kind;
@@ -14,6 +15,7 @@ a TypeError for numpy.float64 is reported under the signature "defuzzify:numpy-f
 """
 from __future__ import annotations
 
+import concurrent.futures
 import itertools
 import math
 
@@ -83,7 +85,8 @@ def make_history(setting, seq, cut, fault, clears, lo=LO, hi=HI):
             final.append(["clear"])
         final.append(ev)
     return {"cfg": {"lock_previous": lp, "default": DEFAULTS[d], "lock_range": lr, "min": lo, "max": hi},
-            "events": final, "label": f"{seq}/{'+'.join(map(str, cut))}/{'LP' if lp else '--'},{d},{'LR' if lr else '--'}"}
+            "events": final, "label": f"{seq}/{'+'.join(map(str, cut))}/{'LP' if lp else '--'},{d},{'LR' if lr else '--'}",
+            "seq": seq, "plain": fault is None and not clears}
 
 
 def hkey(h):
@@ -370,16 +373,19 @@ def run(ctx, build, verdict, ev):
     _harness()
     seen = set()
     batch, batch_meta = [], []
+    split_seen: dict = {}
     found: dict[str, dict] = {}  # signature -> {count, best (smallest history), what}
     mism: list[dict] = []
-    stats = {"groups": {}, "settings": {}, "n_calls": {}, "with_fault": 0, "with_clear": 0, "kinds": {"array": 0, "zerod": 0, "float64": 0},
-             "events": 0, "rows": 0, "rows_changed_by_cascade": 0}
+    stats = {"groups": {}, "settings": {}, "n_calls": {}, "with_fault": 0, "with_clear": 0, "kinds": {"array": 0, "zerod": 0, "float64": 0, "pyfloat": 0},
+             "events": 0, "rows": 0, "rows_changed_by_cascade": 0, "split_comparisons": 0}
     nontrivial = 0
     total = 0
     samples = []
     coq_failed = [False]
     batch_no = [0]
     BATCH = 1500 * vlib.NPROC
+    pool = concurrent.futures.ThreadPoolExecutor(max_workers=1)
+    every = 1 if ctx.tier == "quick" else 3  # thorough: the kind re-runs on every history of base/wild, every 3rd of the others
 
     def note(sig, what, h, kind):
         f = found.setdefault(sig, {"count": 0, "best": None, "what": None})
@@ -388,18 +394,28 @@ def run(ctx, build, verdict, ev):
             f["best"] = dict(h, kind=kind)
             f["what"] = what
 
+    pending = []  # Coq evaluations running in a helper thread while the next batch is produced
+
+    def collect(wait_all):
+        while pending and (wait_all or pending[0][0].done() or len(pending) > 1):
+            fut, meta = pending.pop(0)
+            bad, log = fut.result()
+            for i in bad:
+                if i < 0:
+                    if not coq_failed[0]:
+                        verdict.add_broken("correspondence", "C12:coq-evaluation", log)
+                    coq_failed[0] = True
+                    break
+                mism.append(meta[i])
+
     def flush():
         if not batch:
             return
         if not build.translation_errors and build.ok and not coq_failed[0]:
-            bad, log = vlib.run_coq_cases(ctx.work, f"c12_{batch_no[0]}", COQ_IMPORTS, [(CASE_TYPE, "c12_check", list(batch))], chunk=1500)
+            fut = pool.submit(vlib.run_coq_cases, ctx.work, f"c12_{batch_no[0]}", COQ_IMPORTS, [(CASE_TYPE, "c12_check", list(batch))], 1500)
+            pending.append((fut, list(batch_meta)))
             batch_no[0] += 1
-            for i in bad:
-                if i < 0:
-                    verdict.add_broken("correspondence", "C12:coq-evaluation", log)
-                    coq_failed[0] = True
-                    break
-                mism.append(batch_meta[i])
+            collect(False)
         batch.clear()
         batch_meta.clear()
 
@@ -415,10 +431,10 @@ def run(ctx, build, verdict, ev):
         if r:
             note(r[0], r[1], h, "array")
         # the same history with one-element batches handed over as 0-d arrays / numpy.float64 scalars
-        if any(e[0] in ("call", "disabled") and len(e[1]) == 1 for e in h["events"]):
+        if (every == 1 or group in ("base", "wild") or total % every == 0) and any(e[0] in ("call", "disabled") and len(e[1]) == 1 for e in h["events"]):
             # (observations after an empty batch are outside the property: compare the kinds only up to there)
             upto = 1 + next((i for i, e in enumerate(h["events"]) if e[0] == "call" and not e[1]), len(h["events"]))
-            for kind in ("zerod", "float64"):
+            for kind in ("zerod", "float64", "pyfloat"):
                 ok = run_real(h, kind)
                 stats["kinds"][kind] += 1
                 r2 = oracle_check(h, ok, kind)
@@ -427,6 +443,14 @@ def run(ctx, build, verdict, ev):
                 elif any(len(x["value"]) != len(y["value"]) or not all(vlib.same_float(p, q) for p, q in zip(x["value"], y["value"]))
                          or not vlib.same_float(x["previous"], y["previous"]) or x["exc"] != y["exc"] for x, y in list(zip(obs, ok))[:upto]):
                     note("defuzzify:kind-dependence", f"{h['label']}: observations differ between a 1-d array and a {kind} result", h, kind)
+        # split invariance, directly: the concatenated values of a sequence do not depend on the cut
+        if h.get("plain") and all(o["exc"] is None for o in obs):
+            cat = [x for o in obs[1:] for x in o["value"]]
+            k2 = (key[:5], h["seq"])
+            first = split_seen.setdefault(k2, (cat, h))
+            stats["split_comparisons"] += first[1] is not h
+            if len(first[0]) != len(cat) or not all(vlib.same_float(p, q) for p, q in zip(first[0], cat)):
+                note("defuzzify:split-dependence", f"{h['label']}: concatenated values {cat} differ from {first[0]} obtained with the cut {first[1]['label']}", h, "array")
         batch.append(coq_case(h, obs))
         batch_meta.append({"history": h, "observed": [{k: o[k] for k in ("value", "previous", "fuzzy", "exc")} for o in obs]})
         # statistics
@@ -452,6 +476,8 @@ def run(ctx, build, verdict, ev):
         if len(batch) >= BATCH:
             flush()
     flush()
+    collect(True)
+    pool.shutdown()
 
     for sig, f in sorted(found.items()):
         verdict.add_violation(sig, f"{f['what']}  [{f['count']} histories with this signature; smallest shown]", f["best"])
